@@ -1903,6 +1903,10 @@ pub fn f19() -> Vec<Case> {
     }
     // MOD with a REAL operand: must be refused by the checker or evaluate (was: accepted, TypeMismatch)
     out.push(raw("F19", "real-operand:MOD", "PROGRAM Main\nVAR r : REAL := 5.5; q : REAL; l : LREAL := 5.5; END_VAR\n    q := r MOD 2.0;\n    l := l MOD LREAL#2.0;\nEND_PROGRAM\n", 2));
+    // `&` (symbolic AND): on integers it must be refused by the checker (was: untyped, TypeMismatch
+    // at run time); on BOOL it evaluates
+    out.push(raw("F19", "ampersand:integer-operands", "PROGRAM Main\nVAR i : INT := 3; b : BOOL; END_VAR\n    b := i & i;\nEND_PROGRAM\n", 2));
+    out.push(raw("F19", "ampersand:bool-operands", "PROGRAM Main\nVAR c : BOOL := TRUE; d : BOOL; e : BOOL; END_VAR\n    d := c & TRUE;\n    e := c & NOT d;\nEND_PROGRAM\n", 2));
     out.push(raw(
         "F19",
         "en-false:then-call-through-using",
